@@ -1,6 +1,8 @@
 SPECIFICATION Spec
 CONSTANTS MaxLen = 2 MaxN = 4 Infinite = FALSE MaxOut = 100
+  Vals = "nat" Stops = FALSE MaxRuns = 1
   Alphabet <- AlphaC01
+  Must <- NoMust
   Pairs <- Both
 INVARIANT OpEqDen
 INVARIANT OutIsPrefix
@@ -8,4 +10,6 @@ INVARIANT EmptyIsIdentity
 INVARIANT BadRejectedAtBuild
 INVARIANT Regroup
 INVARIANT NoWorkBeforeDemand
+INVARIANT NoDataInvisible
+INVARIANT SliceIsPySlice
 CHECK_DEADLOCK FALSE
